@@ -262,7 +262,10 @@ func (k *ExtendedKey) Child(i uint32) (*ExtendedKey, error) {
 	//   Il = intermediate key used to derive the child
 	//   Ir = child chain code
 	il := ilr[:len(ilr)/2]
-	childChainCode := ilr[len(ilr)/2:]
+	// The child keeps its chain code in a buffer of its own: slicing it out of
+	// ilr would leave Il in front of it in the same allocation, where Zero
+	// cannot reach it.
+	childChainCode := append([]byte(nil), ilr[len(ilr)/2:]...)
 
 	// Both derived public or private keys rely on treating the left 32-byte
 	// sequence calculated above (Il) as a 256-bit integer that must be
